@@ -606,10 +606,13 @@ class Subspace(IdealPoint):
     def _data_with_dual(self):
         midpoints = np.sum(self.ideal_basis, axis=-2) / self.ideal_basis.shape[-2]
 
-        poincare_ctr, poincare_rad = self.sphere_parameters(model=Model.POINCARE)
-        spacelike_guess = Point(poincare_ctr, model=Model.KLEIN).coords(
-            model=Model.PROJECTIVE
-        )
+        # any vector which is Minkowski-orthogonal to the subspace is
+        # spacelike. (The center of the sphere representing this
+        # subspace in the Poincare model would also do, but it is
+        # infinite for subspaces through the origin.)
+        spacelike_guess = utils.kernel(
+            self.ideal_basis @ self.minkowski
+        )[..., :, 0]
 
         to_orthogonalize = np.concatenate(
             [np.expand_dims(midpoints, axis=-2),
